@@ -5,6 +5,8 @@
 
 mod alloc_probe;
 mod checks;
+#[cfg(feature = "shuttle")]
+mod engine_b;
 mod framework;
 mod proggen;
 mod rng;
